@@ -323,6 +323,16 @@ def others(ctx, binary, n_cases, fails):
             v = complex(hafnian_with_reduction(A.copy(), np.array(occ)))
             if abs(v - h) > 1e-9 * max(1.0, abs(h)):
                 fails.append(("hafnian", f"hafnian_with_reduction(occ {occ}) = {v}, definition {h}", {"occ": occ, "matrix": repr(A.tolist())}))
+            # homogeneity / small entries (weak squeezing): the hafnian is homogeneous of degree N/2, so the error bound
+            # must be relative to the size of the terms, not absolute
+            N = sum(occ)
+            if N % 2 == 0 and N >= 4:
+                habs = abs(haf_def([[abs(x) for x in r] for r in M]))
+                for sc in (1e-2, 1e-3, 1e-4, 1e-6):
+                    vs = complex(hafnian_with_reduction(A.copy() * sc, np.array(occ)))
+                    if abs(vs - h * sc ** (N // 2)) > 1e-7 * habs * sc ** (N // 2):
+                        fails.append(("hafnian-scaled", f"hafnian_with_reduction({sc} * A, occ {occ}) = {vs}, definition {h * sc ** (N // 2)} (relative error {abs(vs - h * sc ** (N // 2)) / max(abs(h) * sc ** (N // 2), 1e-300):.2e})",
+                                      {"occ": occ, "scale": sc, "matrix": repr(A.tolist())})); break
             v = complex(loop_hafnian_with_reduction(A.copy(), diag.copy(), np.array(occ)))
             if abs(v - lh) > 1e-9 * max(1.0, abs(lh)):
                 fails.append(("loop-hafnian", f"loop_hafnian_with_reduction(occ {occ}) = {v}, definition {lh}", {"occ": occ, "matrix": repr(A.tolist()), "diag": repr(diag.tolist())}))
